@@ -166,6 +166,9 @@ def havoc(it, spec, s, frame, extra_nodes=()):
         except PyRaise:
             continue  # created inside the loop body
         from .models import SymIter, IterHost
+        if n in spec.havoc and callable(spec.havoc[n]) and not hasattr(spec.havoc[n], "fresh"):
+            frame.store(n, spec.havoc[n](it))
+            continue
         if isinstance(obj, SymIter):
             p = KInt.fresh("iterpos")
             ex.assume(And(p >= 0, SBool(I(p) >= I(obj.pos))))
